@@ -2,7 +2,9 @@ package main
 
 import (
 	"fmt"
+	"go/token"
 	"go/types"
+	"sort"
 	"strings"
 
 	"golang.org/x/tools/go/ssa"
@@ -45,6 +47,7 @@ func checkC20(w *World, r *Report, tier string) propMeta {
 	guardedAccessCheck(w, r, "C20.R4", "Results", []string{"errs", "blockStats", "duration", "finished", "finalized", "err"}, ".mu", nil)
 	c20R5(w, r)
 	c20R6(w, r)
+	c20R7(w, r)
 	return propMeta{
 		explanation: "The cursor's terminal state as path, lock and ownership rules: (R1) Results.err is written only under mu, on the not-yet-finalized edge, together with finalized = true; (R2) every `return false` of Next follows finish (directly or through terminate) or the iterDone test, and finish sets iterDone; (R3) Close runs its body under closeOnce, cancels, waits for done and returns nil; terminate cancels and waits for done before reading the recorded errors and wraps the caller's context error with %w when it is set; (R4) the guarded-by table of Results; (R5) no worker can wedge: every channel operation in the goroutines Query starts is a select with the query context's Done() case or a default (one named exception: querySlot.release takes back the token the slot itself sent); (R6) teardown order fileWorkers.Wait → close(blockJobs) → blockWorkers.Wait → handles.closeAll → markWorkersDone.",
 		notDecided:  "Interleavings of Next/Close themselves; MetaStore iterators that ignore ctx (a contract of the store).",
@@ -363,6 +366,7 @@ func checkC21(w *World, r *Report, tier string) propMeta {
 	c21R3(w, r)
 	c21R4(w, r)
 	c21R5(w, r)
+	c21R6(w, r)
 	return propMeta{
 		explanation: "Resource release as counting, pending/kill and ownership rules: (R1) after every successful handles.acquire exactly one of put/discard happens on every path (through the deferred health-flag closure in evaluateBlockFilters, directly in processDataBlock), and every read handle opened in the package (DataStore.OpenFile, os.Open) is closed on all paths or returned to a caller that is itself checked; (R2) every handles.retain is matched by a release or by a successful hand-off of the job, whose receiver defers the release before anything else; (R3) every goroutine the query starts is preceded by Add(1) on the WaitGroup whose Done it defers first (the teardown goroutine is the named exception: its completion is markWorkersDone); (R4) every worker defers slot.release, held becomes true only on the semaphore-send edge and false only after taking the token back; (R5) the pool's fields are accessed under mu (named exception: closeAll walks the detached map) and no store I/O (OpenFile, Close) runs with mu possibly held.",
 		notDecided:  "That a DataStore's Close really releases the handle; exclusivity of a handle between put and the next acquire under all schedules (rests on R5's lock discipline).",
@@ -609,8 +613,14 @@ func c21R3(w *World, r *Report) {
 	const rule = "C21.R3"
 	r.rule(rule, "goroutines: each go in the query region follows Add(1) on the WaitGroup whose Done the goroutine defers at entry (exception: the teardown goroutine)", 3)
 	q := w.fn("BloomSearchEngine.Query")
+	region := queryRegion(w)
 	for _, s := range w.goSites() {
 		if outermost(s.Fn) != q {
+			// a goroutine started anywhere else on the query's call paths is
+			// joined by nobody: Next/Close can return while it still runs
+			if region[s.Fn] && s.Fn.Pkg != nil && s.Fn.Pkg.Pkg.Path() == modulePath {
+				r.bad(rule, "go-outside-Query:"+baseName(w.name(s.Fn)), w.instrPos(s.Instr), baseName(w.name(s.Fn))+" starts a goroutine on the query's call paths that no WaitGroup of the query joins: Next can return false (and Close return) while it is still running, e.g. still inside a handle's Close")
+			}
 			continue
 		}
 		g := s.Instr.(*ssa.Go)
@@ -890,7 +900,7 @@ func checkC22(w *World, r *Report, tier string) propMeta {
 func checkC23(w *World, r *Report, tier string) propMeta {
 	const r1, r2, r3 = "C23.R1", "C23.R2", "C23.R3"
 	r.rule(r1, "one stats entry per scan job: processDataBlock registers its recordBlockStats defer unconditionally at entry and records nowhere else", 2)
-	r.rule(r2, "filter pass accounts for each block exactly once per iteration (survivor, skipped entry, or unread entry) and every early exit is a cancellation or records all remaining blocks", 6)
+	r.rule(r2, "filter pass accounts for each block exactly once per iteration (survivor, skipped entry, or unread entry) and every early exit is a cancellation or records all remaining blocks", 12)
 	r.rule(r3, "skipped/unread entries leave RowsProcessed/BytesProcessed zero; scan counters advance once per scanned row; Stats counts each entry as skipped xor processed and sums rows/bytes over all entries", 6)
 	if fn := fnOrUndecided(w, r, r1, "BloomSearchEngine.processDataBlock"); fn != nil {
 		deferred := false
@@ -946,26 +956,52 @@ func checkC23(w *World, r *Report, tier string) propMeta {
 		}
 	}
 	if fn := fnOrUndecided(w, r, r2, "BloomSearchEngine.evaluateBlockFilters"); fn != nil {
+		// the loops' own index values: X of `X < len(blocks)`
+		iterIdx := map[ssa.Value]bool{}
+		for _, b := range fn.Blocks {
+			if iff, ok := b.Instrs[len(b.Instrs)-1].(*ssa.If); ok {
+				if cmp, ok := iff.Cond.(*ssa.BinOp); ok && cmp.Op == token.LSS && isLenOf(w, cmp.Y, "p:blocks") {
+					iterIdx[cmp.X] = true
+				}
+			}
+		}
+		acct := func(must ...string) *Event {
+			e := &Event{Must: must, May: []string{"acctAny"}}
+			return e.count("acct")
+		}
+		var wholeSites, oddSites []ssa.Instruction
 		cl := &Classifier{
 			Call: func(site ssa.Instruction, c *ssa.CallCommon) *Event {
 				switch {
 				case w.isCallTo(c, "Results.recordBlockStats"):
-					return (&Event{}).count("acct")
+					return acct()
 				case w.isCallTo(c, "recordUnreadBlocks"):
 					arg := c.Args[2]
 					if sl, ok := arg.(*ssa.Slice); ok && w.path(sl.X) == "p:blocks" {
-						if sl.High == nil {
-							return ev("restRecorded").count("acct") // blocks[i:] — this block and every later one
+						if sl.Low == nil || !iterIdx[sl.Low] {
+							oddSites = append(oddSites, site)
+							return nil
 						}
-						return (&Event{}).count("acct") // blocks[i:i+1]
+						if sl.High == nil {
+							return acct("restRecorded") // blocks[i:] — this block and every later one
+						}
+						if hb, ok := sl.High.(*ssa.BinOp); ok && hb.Op == token.ADD && hb.X == sl.Low {
+							if one, isC := constInt(hb.Y); isC && one == 1 {
+								return acct() // blocks[i:i+1]
+							}
+						}
+						oddSites = append(oddSites, site)
+						return nil
 					}
 					if w.path(arg) == "p:blocks" {
+						wholeSites = append(wholeSites, site)
 						return ev("restRecorded")
 					}
+					oddSites = append(oddSites, site)
 				case w.calleeName(c) == "builtin.append":
 					if call, ok := site.(*ssa.Call); ok {
 						if _, elems, ok := appendedElems(call); ok && len(elems) == 1 && w.typeName(elems[0].Type()) == "blockScanCandidate" {
-							return (&Event{}).count("acct")
+							return acct()
 						}
 					}
 				}
@@ -1003,6 +1039,22 @@ func checkC23(w *World, r *Report, tier string) propMeta {
 			nb++
 			c := f.Cnt("acct")
 			r.check(c == c1, r2, fmt.Sprintf("evaluateBlockFilters:iteration(b%d)", b.Index), w.instrPos(b.Instrs[len(b.Instrs)-1]), "block accounted for exactly once", "a block can reach the next iteration accounted for "+cntString(c)+" times (survivor / skipped entry / unread entry): Stats lists it twice or not at all")
+		}
+		seenSite := map[ssa.Instruction]bool{}
+		for _, site := range wholeSites {
+			if seenSite[site] {
+				continue
+			}
+			seenSite[site] = true
+			f := fl.Before(site)
+			r.check(f != nil && !f.May("acctAny"), r2, "evaluateBlockFilters:whole-file-unread-only-before-any-accounting", w.instrPos(site), "no block accounted for yet", "every block of the file is recorded as unread at a point where some blocks may already have been accounted for (as survivors, skipped or unread): those blocks are listed twice")
+		}
+		for _, site := range oddSites {
+			if seenSite[site] {
+				continue
+			}
+			seenSite[site] = true
+			r.bad(r2, "evaluateBlockFilters:unread-range", w.instrPos(site), "recordUnreadBlocks is given a range of blocks that is neither the whole file, blocks[i:] nor blocks[i:i+1] for the loop's own index i: blocks are listed twice or not at all")
 		}
 		if nb < 3 {
 			r.undecided(r2, "evaluateBlockFilters:loops", w.pos(fn.Pos()), fmt.Sprintf("expected three loops over the blocks, found %d back edges", nb))
@@ -1300,8 +1352,373 @@ func checkC24(w *World, r *Report, tier string) propMeta {
 		}
 		r.check(okc && n >= 2, r4, "filtersFor:validated-before-read", w.pos(fn.Pos()), "section bounds validated before any read or slice", "a block's filter section is read or sliced before its bounds were validated against the region")
 	}
+	c24R5(w, r)
+	nTable := c24R6(w, r)
 	return propMeta{
-		explanation: "Effectiveness of pruning as reachability rules: (R1) the file-job send is unreachable from the false edge of the file-level bloom test and from an empty prefilter result; (R2) the block-filter pass opens and reads only when the prune query has conditions and the file has sections, and a block whose filters were read is queued for scanning only on the survived edge; (R3) row data is read only by processDataBlock (called only from the block worker), block jobs are sent only from the file worker's survivor loop; (R4) the scan reads exactly (RowDataOffset, RowDataSize) of its block and filter chunks start at the evaluated block's validated section.",
+		explanation: fmt.Sprintf("(R5) planBlockFilterReads' hasSections is a latch over the candidate blocks; (R6) exact prune table: evaluateBloomFilters interpreted over %d (tree, membership, absent-filter mask) cases equals its specification, so whatever the present filters rule out is disqualified. ", nTable) + "Effectiveness of pruning as reachability rules: (R1) the file-job send is unreachable from the false edge of the file-level bloom test and from an empty prefilter result; (R2) the block-filter pass opens and reads only when the prune query has conditions and the file has sections, and a block whose filters were read is queued for scanning only on the survived edge; (R3) row data is read only by processDataBlock (called only from the block worker), block jobs are sent only from the file worker's survivor loop; (R4) the scan reads exactly (RowDataOffset, RowDataSize) of its block and filter chunks start at the evaluated block's validated section.",
 		notDecided:  "Request counts on real layouts (the existing query_handles tests measure those); that stores honour the extents they are asked for.",
+	}
+}
+
+// ctxOrigins: where a context value comes from — struct fields it is loaded
+// from ("field:Owner.name"), parameters ("param:fn.name", looking through
+// closures' free variables to the binding in the parent), calls ("call:callee").
+func ctxOrigins(w *World, v ssa.Value, seen map[ssa.Value]bool, out map[string]bool) {
+	if v == nil || seen[v] {
+		return
+	}
+	seen[v] = true
+	switch x := v.(type) {
+	case *ssa.Phi:
+		for _, e := range x.Edges {
+			ctxOrigins(w, e, seen, out)
+		}
+		return
+	case *ssa.ChangeType:
+		ctxOrigins(w, x.X, seen, out)
+		return
+	case *ssa.ChangeInterface:
+		ctxOrigins(w, x.X, seen, out)
+		return
+	case *ssa.MakeInterface:
+		ctxOrigins(w, x.X, seen, out)
+		return
+	case *ssa.Parameter:
+		out["param:"+baseName(w.name(x.Parent()))+"."+x.Name()] = true
+		return
+	case *ssa.FreeVar:
+		if b := freeVarBinding(x); b != nil {
+			ctxOrigins(w, b, seen, out)
+			return
+		}
+	case *ssa.Extract:
+		if c, ok := x.Tuple.(*ssa.Call); ok {
+			out["call:"+w.calleeName(&c.Call)] = true
+			return
+		}
+	case *ssa.Call:
+		out["call:"+w.calleeName(&x.Call)] = true
+		return
+	case *ssa.UnOp:
+		if x.Op == token.MUL {
+			if owner, field, _, ok := w.structFieldOf(x); ok {
+				out["field:"+owner+"."+field] = true
+				return
+			}
+			// a captured or address-taken local: the values stored into the cell
+			cell := x.X
+			if fv, ok := cell.(*ssa.FreeVar); ok {
+				if b := freeVarBinding(fv); b != nil {
+					cell = b
+				}
+			}
+			if a, ok := cell.(*ssa.Alloc); ok {
+				n := 0
+				for _, ref := range *a.Referrers() {
+					if st, ok := ref.(*ssa.Store); ok && st.Addr == ssa.Value(a) {
+						n++
+						ctxOrigins(w, st.Val, seen, out)
+					}
+				}
+				if n > 0 {
+					return
+				}
+			}
+		}
+	}
+	out["?:"+w.path(v)] = true
+}
+
+// c20R7: everything that can block in the query's goroutines observes the
+// cursor's own context (Results.ctx — cancelled by Close, by terminate and,
+// being a child, by the caller), never the caller's context directly.
+func c20R7(w *World, r *Report) {
+	const rule = "C20.R7"
+	r.rule(rule, "context provenance: in the goroutines Query starts (and everything they call) every context that is waited on (select Done case), passed to a callee or stored in a slot comes from Results.ctx — directly, through a querySlot built with it, or through a parameter every caller fills that way; the caller's context reaches only newResults", 13)
+	q := fnOrUndecided(w, r, rule, "BloomSearchEngine.Query")
+	if q == nil {
+		return
+	}
+	// the goroutine region: functions reachable from Query's go sites and closures
+	var roots []*ssa.Function
+	for _, fn := range w.Funcs {
+		if fn.Parent() != nil && outermost(fn) == q {
+			roots = append(roots, fn)
+		}
+	}
+	region := w.reachableFuncs(true, roots...)
+	allowedField := map[string]bool{"field:Results.ctx": true, "field:querySlot.ctx": true}
+	// param origins are allowed when the parameter belongs to a region function
+	// (its call sites are themselves checked) that is not Query itself
+	okOrigin := func(o string) bool {
+		if allowedField[o] {
+			return true
+		}
+		if strings.HasPrefix(o, "param:") {
+			fnName := strings.TrimPrefix(o, "param:")
+			fnName = fnName[:strings.LastIndex(fnName, ".")]
+			if fnName == "BloomSearchEngine.Query" {
+				return false
+			}
+			for fn := range region {
+				if baseName(w.name(fn)) == fnName && (fn.Parent() == nil || outermost(fn) != fn) {
+					return true
+				}
+			}
+		}
+		return false
+	}
+	isCtx := func(t types.Type) bool { return w.typeName(t) == "context.Context" }
+	count := map[string]int{}
+	check := func(fn *ssa.Function, in ssa.Instruction, what string, v ssa.Value) {
+		out := map[string]bool{}
+		ctxOrigins(w, v, map[ssa.Value]bool{}, out)
+		var bad []string
+		for o := range out {
+			if !okOrigin(o) {
+				bad = append(bad, o)
+			}
+		}
+		sort.Strings(bad)
+		ck := baseName(w.name(fn)) + ":" + what
+		count[ck]++
+		r.check(len(bad) == 0, rule, fmt.Sprintf("%s#%d", ck, count[ck]), w.instrPos(in), "context comes from Results.ctx", fmt.Sprintf("%s uses a context that does not come from the cursor's own context (%s): Close cancels only Results.ctx, so this wait does not end when the cursor is closed — Close and Next can block behind it", what, strings.Join(bad, ", ")))
+	}
+	var fns []*ssa.Function
+	for fn := range region {
+		if fn.Pkg == nil || fn.Pkg.Pkg.Path() != modulePath {
+			continue
+		}
+		fns = append(fns, fn)
+	}
+	sort.Slice(fns, func(i, j int) bool { return w.name(fns[i]) < w.name(fns[j]) })
+	for _, fn := range fns {
+		eachInstr(fn, func(in ssa.Instruction) {
+			switch x := in.(type) {
+			case *ssa.Select:
+				for _, st := range x.States {
+					if c, ok := st.Chan.(*ssa.Call); ok && c.Call.IsInvoke() && c.Call.Method.Name() == "Done" && isCtx(c.Call.Value.Type()) {
+						check(fn, in, "select-done", c.Call.Value)
+					}
+				}
+			case *ssa.UnOp:
+				if x.Op == token.ARROW {
+					if c, ok := x.X.(*ssa.Call); ok && c.Call.IsInvoke() && c.Call.Method.Name() == "Done" && isCtx(c.Call.Value.Type()) {
+						check(fn, in, "recv-done", c.Call.Value)
+					}
+				}
+			case *ssa.Store:
+				if owner, field, _, ok := w.structFieldOf(x.Addr); ok && isCtx(x.Val.Type()) && owner == "querySlot" {
+					check(fn, in, "store:"+owner+"."+field, x.Val)
+				}
+			}
+			if c := callOf(in); c != nil && !c.IsInvoke() {
+				if _, isB := c.Value.(*ssa.Builtin); !isB {
+					for _, a := range c.Args {
+						if isCtx(a.Type()) {
+							check(fn, in, "arg:"+w.calleeName(c), a)
+						}
+					}
+				}
+			} else if c != nil && c.IsInvoke() {
+				for _, a := range c.Args {
+					if isCtx(a.Type()) {
+						check(fn, in, "arg:"+w.calleeName(c), a)
+					}
+				}
+			}
+		})
+	}
+	// Query itself: its ctx parameter goes to newResults only
+	eachInstr(q, func(in ssa.Instruction) {
+		c := callOf(in)
+		if c == nil {
+			return
+		}
+		for _, a := range c.Args {
+			if p, ok := a.(*ssa.Parameter); ok && isCtx(p.Type()) {
+				r.check(w.isCallTo(c, "newResults"), rule, "Query:caller-ctx->"+w.calleeName(c), w.instrPos(in), "the caller's context only parents the cursor's", "the caller's context is handed to "+w.calleeName(c)+" instead of the cursor's own context")
+			}
+		}
+	})
+}
+
+// c21R6: inside the handle pool every handle has exactly one fate.
+func c21R6(w *World, r *Report) {
+	const rule = "C21.R6"
+	r.rule(rule, "pool internals: put either stores the handle as idle or closes it — exactly one of the two on every path; discard closes it exactly once, synchronously; acquire removes the handle it lends from the idle set; closeHandles closes every element; detached idle sets are closed exactly once", 7)
+	isParamClose := func(fn *ssa.Function, c *ssa.CallCommon, param string) bool {
+		if !c.IsInvoke() || c.Method.Name() != "Close" {
+			return false
+		}
+		p, ok := c.Value.(*ssa.Parameter)
+		return ok && p.Name() == param && p.Parent() == fn
+	}
+	if fn := fnOrUndecided(w, r, rule, "fileHandlePool.put"); fn != nil {
+		cl := &Classifier{
+			Call: func(site ssa.Instruction, c *ssa.CallCommon) *Event {
+				if isParamClose(fn, c, "handle") {
+					return ev("closed").count("fate")
+				}
+				return nil
+			},
+			Instr: func(in ssa.Instruction) *Event {
+				st, ok := in.(*ssa.Store)
+				if !ok {
+					return nil
+				}
+				if owner, field, _, ok := w.structFieldOf(st.Addr); ok && owner == "pooledFileHandles" && field == "idle" {
+					if call, ok := st.Val.(*ssa.Call); ok {
+						if _, elems, ok := appendedElems(call); ok {
+							for _, e := range elems {
+								if p, isP := e.(*ssa.Parameter); isP && p.Name() == "handle" {
+									return ev("stored").count("fate")
+								}
+							}
+						}
+					}
+				}
+				return nil
+			},
+		}
+		fl := newFlow(w, fn, cl)
+		for i, ret := range fl.Returns() {
+			f := fl.Before(ret)
+			c := f.Cnt("fate")
+			r.check(c == c1, rule, fmt.Sprintf("put:return#%d", i), w.instrPos(ret), "stored as idle or closed, exactly one", "put gives the handle "+cntString(c)+" fates (stored idle / closed) on paths to this return: a handle both closed and kept idle is lent out after close and closed again at teardown; a handle with neither is leaked")
+		}
+	}
+	if fn := fnOrUndecided(w, r, rule, "fileHandlePool.discard"); fn != nil {
+		fl := newFlow(w, fn, &Classifier{Call: func(site ssa.Instruction, c *ssa.CallCommon) *Event {
+			if _, isGo := site.(*ssa.Go); isGo {
+				return nil
+			}
+			if isParamClose(fn, c, "handle") {
+				return ev("closed").count("fate")
+			}
+			return nil
+		}})
+		for i, ret := range fl.Returns() {
+			c := fl.Before(ret).Cnt("fate")
+			r.check(c == c1, rule, fmt.Sprintf("discard:return#%d", i), w.instrPos(ret), "closed exactly once before discard returns", "discard returns with the handle closed "+cntString(c)+" times by the calling goroutine: the failed handle is not closed (or not yet closed) when the reader moves on, so Next can return false with a handle still open")
+		}
+	}
+	if fn := fnOrUndecided(w, r, rule, "closeHandles"); fn != nil {
+		var closeSite ssa.Instruction
+		fl := newFlow(w, fn, &Classifier{Call: func(site ssa.Instruction, c *ssa.CallCommon) *Event {
+			if _, isGo := site.(*ssa.Go); isGo {
+				return nil
+			}
+			if c.IsInvoke() && c.Method.Name() == "Close" && strings.HasPrefix(w.path(c.Value), "p:handles[") {
+				closeSite = site
+				return ev("closed")
+			}
+			return nil
+		}})
+		okc := closeSite != nil
+		if okc {
+			backs := loopBackEdgeFacts(fl, closeSite)
+			okc = len(backs) > 0
+			for _, f := range backs {
+				if !f.Must("closed") {
+					okc = false
+				}
+			}
+		}
+		r.check(okc, rule, "closeHandles:every-element", w.pos(fn.Pos()), "each element closed on every iteration", "closeHandles can skip an element: an idle handle stays open after the query ends")
+	}
+	if fn := fnOrUndecided(w, r, rule, "fileHandlePool.acquire"); fn != nil {
+		// the lent handle is idle[last] and idle is cut to idle[:last] with the same last = len(idle)-1
+		okc := false
+		for _, ret := range newFlow(w, fn, &Classifier{}).Returns() {
+			for _, v := range retVals(w, ret, 0) {
+				u, ok := v.(*ssa.UnOp)
+				if !ok {
+					continue
+				}
+				ia, ok := u.X.(*ssa.IndexAddr)
+				if !ok {
+					continue
+				}
+				if _, field, _, ok := w.structFieldOf(ia.X); !ok || field != "idle" {
+					continue
+				}
+				last, ok := ia.Index.(*ssa.BinOp)
+				if !ok || last.Op != token.SUB {
+					continue
+				}
+				if one, isC := constInt(last.Y); !isC || one != 1 {
+					continue
+				}
+				eachInstr(fn, func(in ssa.Instruction) {
+					st, ok := in.(*ssa.Store)
+					if !ok || !st.Block().Dominates(ret.Block()) {
+						return
+					}
+					if _, field, _, ok := w.structFieldOf(st.Addr); !ok || field != "idle" {
+						return
+					}
+					if sl, ok := st.Val.(*ssa.Slice); ok && sl.Low == nil && sl.High == ssa.Value(last) {
+						okc = true
+					}
+				})
+			}
+		}
+		r.check(okc, rule, "acquire:lent-handle-leaves-idle", w.pos(fn.Pos()), "idle[len-1] is returned and idle cut to idle[:len-1]", "acquire lends an idle handle without removing exactly that handle from the idle set: the same handle can be lent to two readers, or closed at teardown while in use")
+	}
+	for _, name := range []string{"fileHandlePool.release", "fileHandlePool.closeAll"} {
+		fn := fnOrUndecided(w, r, rule, name)
+		if fn == nil {
+			continue
+		}
+		cl := &Classifier{
+			Call: func(site ssa.Instruction, c *ssa.CallCommon) *Event {
+				if _, isGo := site.(*ssa.Go); isGo {
+					return nil
+				}
+				if w.isCallTo(c, "closeHandles") {
+					return ev("closedIdle").count("closeIdle")
+				}
+				if b, ok := c.Value.(*ssa.Builtin); ok && b.Name() == "delete" {
+					return &Event{May: []string{"detached"}}
+				}
+				return nil
+			},
+			Instr: func(in ssa.Instruction) *Event {
+				if st, ok := in.(*ssa.Store); ok {
+					if owner, field, _, ok := w.structFieldOf(st.Addr); ok && owner == "fileHandlePool" && field == "files" && isNilConst(st.Val) {
+						return &Event{May: []string{"detached"}}
+					}
+				}
+				return nil
+			},
+		}
+		fl := newFlow(w, fn, cl)
+		if name == "fileHandlePool.release" {
+			for i, ret := range fl.Returns() {
+				f := fl.Before(ret)
+				if !f.May("detached") {
+					continue
+				}
+				c := f.Cnt("closeIdle")
+				r.check(c == c1, rule, fmt.Sprintf("release:return#%d", i), w.instrPos(ret), "the detached idle set is closed once", "release removes a file's entry and closes its idle handles "+cntString(c)+" times: handles leak or are closed twice")
+			}
+		} else {
+			sites := w.callSitesIn(fn, "closeHandles")
+			okc := len(sites) == 1
+			if okc {
+				backs := loopBackEdgeFacts(fl, sites[0])
+				okc = len(backs) > 0 && strings.Contains(w.path(callOf(sites[0]).Args[0]), ".idle")
+				for _, f := range backs {
+					if !f.Must("closedIdle") {
+						okc = false
+					}
+				}
+				if !fl.Before(sites[0]).May("detached") {
+					okc = false
+				}
+			}
+			r.check(okc, rule, "closeAll:every-entry-closed", w.pos(fn.Pos()), "every detached entry's idle set is closed", "closeAll can leave an entry's idle handles open (or closes them before detaching the map)")
+		}
 	}
 }
